@@ -51,6 +51,9 @@ CHECKS = {
  "C20": ("model_checking", "exhaustive scenario-tree enumeration on the real in-process broker; every statistics counter compared with the harness's own packet log and session/queue model at every quiescent point",
   "Every sequence of an 18-event alphabet (connects v5 persistent / clean / take-over, v3 clean, subscribe, unsubscribe, publish QoS0/1/2, ack, duplicate PUBACK, PINGREQ, DISCONNECT, abrupt close, clock advance, TerminateSession) up to depth 4 (quick) / 5 (thorough), plus breadth-first continuation from two directed states (subscriber offline with backlog; subscriber online with an in-flight message), for two broker configurations; after every event every uint64 leaf of GetGlobalStats()/GetClientStats() except the drop and subscription counters is compared with ground truth (wire lengths, per-QoS PUBLISH counts, session and queue model).",
   "Per-client statistics restart when the session is terminated (the broker deletes them). Drop counters are exercised by C10/C12/C13 through the drop hook; AUTH packet counters are not exercised. Default schedule. Trusted: refmqtt, vsched.", "DESIGN.md 8/C20"),
+ "C19": ("model_checking", "exhaustive enumeration of the CONNECT credential space x hash algorithms, of account-API histories with broker restarts, and of unauthenticated packet sequences on TCP and WebSocket, on the real in-process broker with the real auth plugin",
+  "For each of plain/md5/sha256/bcrypt: every combination of version x user name shape x password shape x v5 authentication-method properties; CONNACK success iff the user is a stored account whose stored hash matches; refused connects leave no client/session. Every sequence of <=3 (quick) / <=4 (thorough) account operations (create, change, delete, restart) x hash x absolute/relative password file, probing four credential pairs after every step and parsing the file on disk. Every sequence of <=2 packets of 8 kinds before CONNECT and after a failed CONNECT, v3.1.1/v5, TCP and WebSocket handler: services unchanged, bystander receives nothing, no reply other than a failing CONNACK/DISCONNECT.",
+  "The gRPC/HTTP account API transport is not in the loop (the handlers are called directly). WebSocket is driven through the real handler over an in-memory conn with a fake hijackable ResponseWriter. Trusted: reference hashing (std lib, x/crypto), refmqtt.", "DESIGN.md 8/C19"),
 }
 NA_DEFAULT = "check not built yet in this session (planned design in DESIGN.md section 8)"
 
